@@ -94,7 +94,7 @@ def run_spec(tape, spec, extra_threads=None, executes=1, style=0):
   # abort trigger (drawn before the run so that the tape prefix is the program)
   trig = None
   if ab:
-    n_est = 2 * len(model.invocations) + 8
+    n_est = 3 * len(model.invocations) + 10
     how = tape.weighted([(5, 'event'), (2, 'step')], 'trig_how')
     if how == 'event':
       e = tape.draw(n_est, 'trig_event')
@@ -171,7 +171,8 @@ def run_spec(tape, spec, extra_threads=None, executes=1, style=0):
             def on_event(rec):
               if cnt['armed'] or rec[3] in ('trigger',):
                 return
-              if rec[3].startswith(('body_', 'plug_', 'callback', 'test_diag', 'diag', 'run_if', 'exec_')):
+              # (thread_start: aborts that land between the creation of a phase thread and its body)
+              if rec[3].startswith(('body_', 'plug_', 'callback', 'test_diag', 'diag', 'run_if', 'exec_', 'thread_start')):
                 if cnt['n'] == trig[1]:
                   cnt['armed'] = True
                   sim.at_step(sim.steps + 1 + trig[2], fire)
